@@ -131,16 +131,16 @@ for _fmt, _kw in VARIANTS:
             _tier = "quick" if _style == "rest" else "thorough"
             _t = "%s.%s.%s" % (_vt, _style, "dflt" if _edd else "nodflt")
             ob("C02", "P1.strdflt.%s" % _t, {"c0": R(0, len(SIGMA) - 1), "c1": R(0, len(SIGMA) - 1)} if _edd else {"c0": PR, "c1": PR},
-               tier=_tier if not _edd else "thorough", T=400 if _edd else 200, funcs=FORMAT_FUNCS[_fmt], assumes=[ADHOC_SHIMS_DOC],
+               tier=_tier if not _edd else "thorough", T=1200 if _edd else 200, funcs=FORMAT_FUNCS[_fmt], assumes=[ADHOC_SHIMS_DOC],
                bound="a:int=3, b:str with default = %s" % ("2 characters over the finite alphabet %r (the prose path realises the text)" % SIGMA if _edd else "ANY 2 printable characters"),
                )(_strdflt(_fmt, _style, _edd, **_kw))
             ob("C02", "P1.intdflt.%s" % _t, {"i": R(-20, 20) if not _edd else R(-3, 3), "b": BOOL}, tier=_tier, T=300, funcs=FORMAT_FUNCS[_fmt], assumes=[ADHOC_SHIMS_DOC],
                bound="a:int with default %s, b:bool with default True/False" % ("-20..20" if not _edd else "-3..3"))(_intdflt(_fmt, _style, _edd, **_kw))
-            ob("C02", "P1.desc.%s" % _t, {"c0": PR, "c1": PR}, pre="c0 != 47 and c1 != 47", tier=_tier if not _edd else "thorough", T=300, funcs=FORMAT_FUNCS[_fmt],
+            ob("C02", "P1.desc.%s" % _t, {"c0": PR, "c1": PR}, pre="c0 != 47 and c1 != 47", tier=_tier if not _edd else "thorough", T=1200 if _edd else 300, funcs=FORMAT_FUNCS[_fmt],
                assumes=[ADHOC_SHIMS_DOC], bound="description 'The '+XY and prose 'Head '+Y+'.' for EVERY printable X, Y except '/'")(_desc(_fmt, _style, _edd, **_kw))
             ob("C02", "P1.optdflt.%s" % _t, {"i": R(-1, 1), "b": BOOL, "e": BOOL}, tier=_tier, T=300, funcs=FORMAT_FUNCS[_fmt], assumes=[ADHOC_SHIMS_DOC],
                bound="Optional[int]=-1..1, Optional[bool]=True/False, Optional[str], Optional[float]=0.0/1.5 (falsy and truthy defaults)")(_optdflt(_fmt, _style, _edd, **_kw))
-            if _fmt != "argparse":
+            if _fmt != "argparse" and _style != "google":  # Google + return entry inside an indented docstring: finding F22b
                 ob("C02", "P1.nodflt.%s" % _t, {"k": R(0, 4)}, tier=_tier, T=200, funcs=FORMAT_FUNCS[_fmt], assumes=[ADHOC_SHIMS_DOC],
                    bound="first parameter WITHOUT default of type int/str/float/bool/Optional[int], second with default, return entry int")(_nodflt(_fmt, _style, _edd, **_kw))
 
@@ -161,3 +161,10 @@ def w_argparse_required(k):
 ob("C02", "F21b.numpydoc_in_function", {"k": R(0, 4)}, tier="witness", T=60, twin=False, funcs=FORMAT_FUNCS["function"], bound="witness of F21b")(w_numpydoc_in_code)
 ob("C02", "F22.class_google_return", {"k": R(0, 4)}, tier="witness", T=60, twin=False, funcs=FORMAT_FUNCS["class"], bound="witness of F22")(w_class_google_return)
 ob("C02", "F23.argparse_required", {"k": R(0, 4)}, tier="witness", T=60, twin=False, funcs=FORMAT_FUNCS["argparse"], bound="witness of F23")(w_argparse_required)
+
+
+def w_function_google_return(k):
+    return _nodflt("function", "google", False, type_annotations=False, kwonly=False)(k)
+
+
+ob("C02", "F22b.function_google_return", {"k": R(0, 4)}, tier="witness", T=60, twin=False, funcs=FORMAT_FUNCS["function"], bound="witness of F22b")(w_function_google_return)
